@@ -261,8 +261,26 @@ func ruleC15R3(r *Run) {
 				return "", false
 			}
 			seen[v] = true
+			orig := v
 			v = p.resolve(v)
+			// a captured variable bound when the generator was constructed (its defining function is not part of the
+			// value/String closure): one object shared by every draw of every check
+			if _, isFV := orig.(*ssa.FreeVar); isFV || isFreeVarLoad(orig) {
+				if in, ok := v.(ssa.Instruction); ok && in.Parent() != nil && mutableObject(v) {
+					if fv := freeVarOf(orig); fv != nil && p.outlivesParent(fv.Parent(), in.Parent()) {
+						return "variable captured at generator construction in " + p.fnName(in.Parent()), true
+					}
+				}
+			}
 			switch x := v.(type) {
+			case *ssa.Call:
+				// reflect derivations share the storage of their operand
+				switch key := p.calleeKey(x.Common()); key {
+				case "(reflect.Value).Field", "(reflect.Value).Index", "(reflect.Value).Elem", "(reflect.Value).Addr", "(reflect.Value).FieldByName", "(reflect.Value).FieldByIndex", "(reflect.Value).Slice", "reflect.Indirect":
+					if len(x.Common().Args) > 0 {
+						return walk(x.Common().Args[0], d+1)
+					}
+				}
 			case *ssa.UnOp:
 				if x.Op != token.MUL {
 					return "", false
@@ -321,6 +339,13 @@ func ruleC15R3(r *Run) {
 							continue
 						}
 						target, what = root, "field store"
+					} else if fv, ok := x.Addr.(*ssa.FreeVar); ok {
+						n++
+						if b, ok := p.bindOf(fv).(ssa.Instruction); ok && b.Parent() != nil && p.outlivesParent(fv.Parent(), b.Parent()) {
+							bad++
+							r.Fail(name+"#store-captured:"+fv.Name(), x.Pos(), "variable "+fv.Name()+" captured when the generator was constructed in "+p.fnName(b.Parent())+" is assigned in "+name+", which runs once per draw: concurrently running checks share it")
+						}
+						continue
 					} else if g, ok := x.Addr.(*ssa.Global); ok && g.Pkg == p.SPkg {
 						n++
 						bad++
@@ -336,6 +361,8 @@ func ruleC15R3(r *Run) {
 					switch {
 					case key == "builtin:copy":
 						target, what = x.Common().Args[0], "copy destination"
+					case strings.HasPrefix(key, "(reflect.Value).Set"):
+						target, what = x.Common().Args[0], "reflect "+strings.TrimPrefix(key, "(reflect.Value).")
 					case strings.HasPrefix(key, "sort.") || strings.HasPrefix(key, "slices.Sort") || strings.HasPrefix(key, "slices.Reverse") || key == "math/rand.Shuffle":
 						if len(x.Common().Args) > 0 {
 							target, what = x.Common().Args[0], key+" argument"
@@ -506,5 +533,235 @@ func ruleC15R4(r *Run) {
 		}
 		r.Check("var:"+g.Name(), g.Pos(), bad == "", g.Name()+" is "+kind, "package-level variable "+g.Name()+" is mutated after initialisation ("+bad+"): generators and checks running concurrently share it")
 	}
-	// values loaded from init-only tables are not written through either (slices/maps): covered by R3 for the generation closure
+	ruleSharedContents(r, nil, 5)
+}
+
+// ruleSharedContents: values loaded from package-level variables (slices, maps, pointers) are not written through, and
+// are handed only to callees known not to write them: a shared scratch buffer is mutable shared state just as well.
+// hosts restricts the functions looked at (nil = all non-init functions).
+func ruleSharedContents(r *Run, hosts map[string]bool, floor int) {
+	p := r.P
+	isInit := func(fn *ssa.Function) bool {
+		for fn.Parent() != nil {
+			fn = fn.Parent()
+		}
+		return fn.Name() == "init" || strings.HasPrefix(fn.Name(), "init#")
+	}
+	nLoads := 0
+	for _, fn := range p.FuncList {
+		if isInit(fn) || (hosts != nil && !hosts[p.hostName(fn)]) {
+			continue
+		}
+		for _, b := range p.body(fn) {
+			for _, in := range b.Instrs {
+				ld, ok := in.(*ssa.UnOp)
+				if !ok || ld.Op != token.MUL || !isRefType(ld.Type()) {
+					continue
+				}
+				g := globalOfAddr(ld.X)
+				if g == nil || g.Pkg != p.SPkg {
+					continue
+				}
+				if p.typeStr(deref(g.Type())) == "sync.Map" {
+					continue
+				}
+				nLoads++
+				if why := p.writtenThrough(ld, 0, map[ssa.Value]bool{}); why != "" {
+					r.Fail("var:"+g.Name()+"#shared-contents@"+p.hostName(fn), ld.Pos(), "the contents of package-level variable "+g.Name()+" can be modified after initialisation ("+why+"): checks running concurrently share it")
+				}
+			}
+		}
+	}
+	r.Floor("loads of reference-typed package-level variables", nLoads, floor)
+}
+
+func isRefType(t types.Type) bool {
+	switch t.Underlying().(type) {
+	case *types.Slice, *types.Map, *types.Pointer:
+		return true
+	}
+	return false
+}
+
+// globalOfAddr: addr is a package-level variable or a field/element address inside one.
+func globalOfAddr(addr ssa.Value) *ssa.Global {
+	for i := 0; i < 6; i++ {
+		switch x := addr.(type) {
+		case *ssa.Global:
+			return x
+		case *ssa.FieldAddr:
+			addr = x.X
+		case *ssa.IndexAddr:
+			addr = x.X
+		default:
+			return nil
+		}
+	}
+	return nil
+}
+
+// readOnlyCallees: external functions that do not write through their slice/map/pointer arguments.
+var readOnlyCalleePrefixes = []string{"strings.", "unicode.", "unicode/utf8.", "fmt.", "sort.Search", "bytes.Equal", "bytes.Index", "bytes.Contains",
+	"(*regexp.Regexp).", "(*regexp/syntax.", "regexp/syntax.", "reflect.ValueOf", "reflect.TypeOf", "(*log.Logger).", "(*strings.Builder).", "builtin:len", "builtin:cap", "builtin:print",
+	"(*flag.FlagSet).", "flag.", "(*testing.", "invoke:tb.", "invoke:", "math/bits.", "strconv.", "(*sync.Once).", "(*sync.Mutex).", "(*sync.RWMutex).", "(*sync/atomic.",
+	// documented: "A template may be executed safely in parallel" (html/template escapes under its own mutex)
+	"(*html/template.Template).Execute", "(*text/template.Template).Execute"}
+
+// writtenThrough follows a reference value (slice, map, pointer) and reports a construct that may write its contents.
+func (p *Program) writtenThrough(v ssa.Value, depth int, seen map[ssa.Value]bool) string {
+	if v == nil || seen[v] || depth > 4 || v.Referrers() == nil {
+		return ""
+	}
+	seen[v] = true
+	for _, ref := range *v.Referrers() {
+		switch x := ref.(type) {
+		case *ssa.IndexAddr, *ssa.FieldAddr:
+			addr := x.(ssa.Value)
+			if addr.Referrers() == nil {
+				continue
+			}
+			for _, r2 := range *addr.Referrers() {
+				if st, ok := r2.(*ssa.Store); ok && st.Addr == addr {
+					return "element/field store at " + p.pos(st.Pos())
+				}
+				if c, ok := r2.(ssa.CallInstruction); ok {
+					key := p.calleeKey(c.Common())
+					if !hasAnyPrefix(key, readOnlyCalleePrefixes) && !p.inRapidKey(c) {
+						return "address of an element passed to " + key + " at " + p.pos(c.Pos())
+					}
+				}
+			}
+		case *ssa.MapUpdate:
+			if x.Map == v {
+				return "map update at " + p.pos(x.Pos())
+			}
+		case *ssa.Slice:
+			if x.X == v {
+				if why := p.writtenThrough(x, depth+1, seen); why != "" {
+					return why
+				}
+			}
+		case *ssa.Phi, *ssa.ChangeType, *ssa.MakeInterface:
+			if why := p.writtenThrough(x.(ssa.Value), depth+1, seen); why != "" {
+				return why
+			}
+		case ssa.CallInstruction:
+			key := p.calleeKey(x.Common())
+			if key == "builtin:append" {
+				// append(dst, v...) reads v; append(v, …) may write v's spare capacity
+				if len(x.Common().Args) > 0 && x.Common().Args[0] == v {
+					return "append to it at " + p.pos(x.Pos())
+				}
+				continue
+			}
+			if key == "builtin:copy" {
+				if len(x.Common().Args) > 0 && x.Common().Args[0] == v {
+					return "copy into it at " + p.pos(x.Pos())
+				}
+				continue
+			}
+			if key == "builtin:delete" || key == "builtin:clear" {
+				return key + " at " + p.pos(x.Pos())
+			}
+			if hasAnyPrefix(key, readOnlyCalleePrefixes) {
+				continue
+			}
+			if sc := x.Common().StaticCallee(); sc != nil && p.inRapid(sc) && sc.Blocks != nil {
+				if o := sc.Origin(); o != nil {
+					sc = o
+				}
+				for k, a := range x.Common().Args {
+					if a == v && k < len(sc.Params) {
+						if why := p.writtenThrough(sc.Params[k], depth+1, seen); why != "" {
+							return why
+						}
+					}
+				}
+				continue
+			}
+			return "passed to " + key + " at " + p.pos(x.Pos()) + ", which is not known to leave it unmodified"
+		}
+	}
+	return ""
+}
+
+func (p *Program) inRapidKey(c ssa.CallInstruction) bool {
+	sc := c.Common().StaticCallee()
+	return sc != nil && p.inRapid(sc)
+}
+
+func hasAnyPrefix(s string, pre []string) bool {
+	for _, q := range pre {
+		if strings.HasPrefix(s, q) {
+			return true
+		}
+	}
+	return false
+}
+
+
+// isFreeVarLoad: v is a load through a captured variable cell.
+func isFreeVarLoad(v ssa.Value) bool {
+	u, ok := v.(*ssa.UnOp)
+	if !ok || u.Op != token.MUL {
+		return false
+	}
+	_, isFV := u.X.(*ssa.FreeVar)
+	return isFV
+}
+
+// mutableObject: v denotes storage that can be written through (slice, map, pointer, reflect.Value handle).
+func mutableObject(v ssa.Value) bool {
+	t := v.Type()
+	if isRefType(t) {
+		return true
+	}
+	return t.String() == "reflect.Value"
+}
+
+
+func freeVarOf(v ssa.Value) *ssa.FreeVar {
+	if fv, ok := v.(*ssa.FreeVar); ok {
+		return fv
+	}
+	if u, ok := v.(*ssa.UnOp); ok {
+		if fv, ok := u.X.(*ssa.FreeVar); ok {
+			return fv
+		}
+	}
+	return nil
+}
+
+// outlivesParent: the function literal g (or an enclosing literal up to owner) is not only called or deferred where it
+// is created but handed on (to Custom, into a generator, returned): it runs once per draw, while the variables it
+// captured from owner exist once per construction.
+func (p *Program) outlivesParent(g, owner *ssa.Function) bool {
+	for i := 0; g != nil && g != owner && i < 6; i++ {
+		par := g.Parent()
+		if par == nil {
+			return false
+		}
+		for _, b := range par.Blocks {
+			for _, in := range b.Instrs {
+				mc, ok := in.(*ssa.MakeClosure)
+				if !ok || mc.Fn != ssa.Value(g) || mc.Referrers() == nil {
+					continue
+				}
+				for _, ref := range *mc.Referrers() {
+					switch x := ref.(type) {
+					case *ssa.DebugRef:
+					case ssa.CallInstruction:
+						if x.Common().Value == ssa.Value(mc) {
+							continue // called / deferred in place
+						}
+						return true
+					default:
+						return true
+					}
+				}
+			}
+		}
+		g = par
+	}
+	return false
 }
